@@ -100,6 +100,9 @@ DIRECTED = [
     (["-t", "ext4", "-b", "4096", "-O", "mmp"], [], 40000),
     (["-t", "ext3", "-b", "1024", "-J", "size=4"], [], 32768),
     (["-t", "ext4", "-b", "2048", "-G", "4", "-O", "flex_bg"], ["packed_meta_blocks=1"], 50000),
+    # packed tables without flex grouping: the groups were already charged for tables of their own (thorough-tier finding, fixed)
+    (["-t", "ext4", "-b", "1024", "-G", "1"], ["packed_meta_blocks=1"], 65536),
+    (["-t", "ext4", "-b", "4096", "-G", "1", "-O", "^metadata_csum,uninit_bg"], ["packed_meta_blocks=1"], 224919),
     # RAID stride without flex_bg: the staggered bitmap position walks through every offset of a group, the last block included
     (["-t", "ext2", "-b", "1024", "-I", "128", "-N", "40800"], ["stride=496"], 163841),
     (["-t", "ext2", "-b", "1024", "-g", "1024"], ["stride=7"], 262144),
@@ -201,7 +204,12 @@ def requested_vs_actual(cfg, fs, dev_blocks):
         short = int(o[o.index("-N") + 1]) - fs.inodes_count
         bad.append("inode count %d below the requested %s%s" % (fs.inodes_count, o[o.index("-N") + 1],
                    " (rounding to a multiple of 8 per group)" if short < 8 * fs.groups_count and fs.bs // fs.inode_size % 8 else ""))
-    if "-g" in o and fs.blocks_per_group != int(o[o.index("-g") + 1]) and not fs.ro_compat & RO_BIGALLOC:
+    # -g together with an inode count that does not fit: ext2fs_initialize() lowers the blocks per group until the inodes
+    # per group fit one bitmap block ("retry:" loop) - two requests that cannot both be met, the inode count wins
+    g_req = int(o[o.index("-g") + 1]) if "-g" in o else 0
+    n_req = int(o[o.index("-N") + 1]) if "-N" in o else 0
+    conflict = bool(g_req and n_req and -(-n_req // max(1, -(-(dev_blocks - (1 if fs.bs == 1024 else 0)) // g_req))) > fs.bs * 8 and fs.blocks_per_group < g_req)
+    if "-g" in o and fs.blocks_per_group != g_req and not fs.ro_compat & RO_BIGALLOC and not conflict:
         bad.append("blocks per group %d, requested %s" % (fs.blocks_per_group, o[o.index("-g") + 1]))
     if "-L" in o and fs.sb_raw[0x78:0x88].rstrip(b"\0").decode() != o[o.index("-L") + 1]:
         bad.append("label differs")
@@ -225,6 +233,10 @@ def requested_vs_actual(cfg, fs, dev_blocks):
         word, bit = FEAT[name]
         have = bool(getattr(fs, word) & bit)
         if want and not have:
+            # mke2fs.c: a feature of the profile's defaults whose prerequisite the command line removes is dropped
+            # silently (default_orphan_file / default_csum_seed), also when the same -O names it again
+            if (name == "metadata_csum_seed" and not final.get("metadata_csum", True)) or (name == "orphan_file" and not final.get("has_journal", True)):
+                continue
             bad.append("feature %s requested but not set" % name)
         if name == "has_journal" and "-J" in cfg["opts"]:
             continue                                              # -J asks for a journal: contradictory request, either outcome is fine
